@@ -219,7 +219,9 @@ Kinds(c) ==
           <<IF c.qs # {} THEN 4 * eff ELSE 0, "qfset">>, <<IF c.qs # {} THEN 2 * eff ELSE 0, "qcopy">>,
           <<IF FreeBools(c) # {} THEN 2 ELSE 0, "bdef">>, <<IF c.bools # {} THEN 3 ELSE 0, "basg">>,
           <<IF FreeConsts(c) # {} THEN 1 ELSE 0, "cdef">>,
-          <<eff, "asgidx">>, <<IF c.sls # {} THEN 2 ELSE 0, "slswap">>,
+          <<eff, "asgidx">>,
+          <<IF c.ptrs # {} THEN 2 ELSE 0, "preasg">>, <<IF c.qs # {} THEN 2 ELSE 0, "qreasg">>,
+          <<IF c.sls # {} THEN 2 ELSE 0, "slreasg">>, <<IF c.maps # {} THEN 2 * eff ELSE 0, "mreasg">>, <<IF c.sls # {} THEN 2 ELSE 0, "slswap">>,
           <<IF FreeFvs(c) # {} /\ ~c.pure THEN 1 ELSE 0, "mkfv">>,
           <<IF FreeClos(c) # {} /\ ~c.pure THEN 1 ELSE 0, "mkgen">>,
           <<IF FreeIfs(c) # {} /\ ~c.pure THEN 2 ELSE 0, "imk">>, <<IF c.ifs # {} THEN 3 * eff ELSE 0, "iasg">>,
@@ -295,6 +297,16 @@ GenS(c) ==
                                                     !.loc = @ \cup {v, vv}, !.labs = Append(@, lab), !.outer = Snap(c)]
                         IN S([k |-> k, s |-> IF k = "rngsl" THEN Pick(c.sls) ELSE "", v |-> v, vv |-> vv, lab |-> lab,
                               body |-> GenB(Pick(1..3), c1)])
+      [] k = "preasg" -> S([k |-> "preasg", form |-> "p", p |-> Pick(c.ptrs), x |-> Pick(c.wr), s |-> ""])
+      [] k = "qreasg" -> S([k |-> "preasg", form |-> "q", p |-> Pick(c.qs), x |-> "", s |-> Pick(c.sts)])
+      [] k = "slreasg" -> LET d == Pick(c.sls) IN
+                          S(IF Cardinality(c.sls) > 1 /\ Pick(1..2) = 1
+                            THEN [k |-> "slreasg", form |-> "share", s |-> d, from |-> Pick(c.sls \ {d}), es |-> <<>>]
+                            ELSE [k |-> "slreasg", form |-> "lit", s |-> d, from |-> "", es |-> <<GenE(1, c), GenLeaf(c), Lit(Pick(0..5))>>])
+      [] k = "mreasg" -> LET d == Pick(c.maps) IN
+                          S(IF Cardinality(c.maps) > 1 /\ Pick(1..2) = 1
+                            THEN [k |-> "mreasg", form |-> "share", s |-> d, from |-> Pick(c.maps \ {d})]
+                            ELSE [k |-> "mreasg", form |-> "make", s |-> d, from |-> ""])
       [] k = "asgidx" -> S([k |-> "asgidx", x |-> Pick(c.wr), form |-> Pick({"xfirst", "afirst"}), a |-> GenE(1, c), b |-> GenE(1, c)])
       [] k = "slswap" -> LET lo == Pick(0..1) IN S([k |-> "slswap", s |-> Pick(c.sls), lo |-> lo, hi |-> Pick((lo + 1)..2)])
       [] k = "mkfv"  -> LET n == Pick(FreeFvs(c)) IN
@@ -430,13 +442,18 @@ GenS(c) ==
       [] k = "appclo" -> S([k |-> "appclo", body |-> GenLitBody(c)])
       [] k = "defer" -> LET cl0 == c.clos \ c.clos1
                             f == PickW(<< <<4, "lit">>, <<IF c.fcall THEN 2 ELSE 0, "call">>, <<2, "print">>, <<1, "method">>,
-                                          <<IF cl0 # {} THEN 2 ELSE 0, "clo">>, <<IF c.maps # {} THEN 1 ELSE 0, "mdel">> >>) IN
+                                          <<IF cl0 # {} THEN 2 ELSE 0, "clo">>, <<IF c.maps # {} THEN 1 ELSE 0, "mdel">>,
+                                          <<IF c.ptrs # {} THEN 3 ELSE 0, "relp">>, <<IF c.qs # {} THEN 3 ELSE 0, "relq">>,
+                                          <<IF c.sls # {} THEN 3 ELSE 0, "rels">>, <<IF c.maps # {} THEN 3 ELSE 0, "relm">> >>) IN
                         S(CASE f = "lit" -> [k |-> "defer", form |-> "lit", body |-> GenDeferBody(c), f |-> "", e |-> Lit(0)]
                             [] f = "method" -> (IF c.qs # {} /\ Pick(1..3) = 1
                                                 THEN [k |-> "defer", form |-> "method", via |-> "ptr", s |-> Pick(c.qs), body |-> <<>>, f |-> "", e |-> GenE(1, c)]
                                                 ELSE [k |-> "defer", form |-> "method", via |-> "val", s |-> Pick(c.sts), body |-> <<>>, f |-> "", e |-> GenE(1, c)])
                             [] f = "clo"  -> [k |-> "defer", form |-> "clo", s |-> Pick(cl0), body |-> <<>>, f |-> "", e |-> Lit(0)]
                             [] f = "mdel" -> [k |-> "defer", form |-> "mdel", s |-> Pick(c.maps), body |-> <<>>, f |-> "", e |-> GenKey(c)]
+                            [] f \in {"relp", "relq", "rels", "relm"} ->
+                                  [k |-> "defer", form |-> f, body |-> <<>>, f |-> "", e |-> Lit(0),
+                                   s |-> Pick(CASE f = "relp" -> c.ptrs [] f = "relq" -> c.qs [] f = "rels" -> c.sls [] f = "relm" -> c.maps)]
                             [] OTHER -> [k |-> "defer", form |-> f, body |-> <<>>, f |-> IF f = "call" THEN "f" ELSE "", e |-> GenE(1, c)])
       [] k = "panic" -> S([k |-> "panic", e |-> Lit(Pick(6..9))])
       [] k = "fault" -> S([k |-> "fault", kind |-> Pick({"nilDeref", "index", "sliceBounds", "divZero", "nilMapWrite", "badAssert", "closeClosed"})])
@@ -514,6 +531,8 @@ PrintS(e)   == [k |-> "print", id |-> 0, e |-> e]
 PanicS(v)   == [k |-> "panic", e |-> Lit(v)]
 AsgS(x, e)  == [k |-> "asg", x |-> x, e |-> e]
 For2(body)  == [k |-> "for", v |-> "i", n |-> 2, lab |-> "", body |-> body]
+Blk(body)   == [k |-> "block", body |-> body]
+DRef(f, v)  == [k |-> "defer", form |-> f, body |-> <<>>, f |-> "", e |-> Lit(0), s |-> v]
 
 MenuF ==
     { PrintS(Lit(1)), AsgS("r", Lit(5)), [k |-> "inc", x |-> "g0", d |-> 1],
@@ -527,7 +546,13 @@ MenuF ==
       DLit(<<AsgS("r", Bin("add", Var("r"), Lit(10))), PrintS(Var("r"))>>),
       For2(<<DPrint(Var("i"))>>),
       PanicS(6),
-      [k |-> "ret", bare |-> FALSE, e |-> Lit(9)] }
+      [k |-> "ret", bare |-> FALSE, e |-> Lit(9)],
+      \* arguments of reference kinds are fixed at the defer statement too: the variable is re-assigned afterwards
+      Blk(<< [k |-> "mkptr", p |-> "p1", x |-> "g0"], DRef("relp", "p1"), [k |-> "preasg", form |-> "p", p |-> "p1", x |-> "g1", s |-> ""] >>),
+      Blk(<< [k |-> "mksl", s |-> "s1", es |-> <<Lit(1), Lit(2), Lit(3)>>], DRef("rels", "s1"),
+             [k |-> "slreasg", form |-> "lit", s |-> "s1", from |-> "", es |-> <<Lit(4), Lit(5), Lit(6)>>] >>),
+      Blk(<< [k |-> "mkmap", s |-> "m1", form |-> "lit", ks |-> <<0>>, es |-> <<Lit(7)>>], DRef("relm", "m1"),
+             [k |-> "mreasg", form |-> "make", s |-> "m1", from |-> ""] >>) }
     \cup { [k |-> "fault", kind |-> kd] : kd \in FamFaults }
 
 
